@@ -401,6 +401,19 @@ Proof.
   intros st e. split; [apply go_h_903_eq|]. split; [apply go_h_904_eq|].
   split; [apply go_h_908_eq|apply go_h_410_caps_eq].
 Qed.
+(* the queries themselves, translated from client/connection.go: after ANY history of server
+   events the generated HasCapability / SupportsCapability answer exactly what clause 2 says —
+   source -> generated -> model state -> the history characterisation (C19_held, C19_supported);
+   neither can panic *)
+Theorem gen_C19_queries : forall flds cfg evs c,
+  go_client_Conn_HasCapability (cs_current (fst (run flds cfg cstate0 evs))) c
+    = Ok (last_mention (ack_tokens flds evs) c)
+  /\ go_client_Conn_SupportsCapability (cs_supported (fst (run flds cfg cstate0 evs))) c
+    = Ok (last_mention (ls_tokens flds evs) c).
+Proof.
+  intros flds cfg evs c. rewrite go_HasCapability_eq, go_SupportsCapability_eq.
+  rewrite held_history, supported_history. split; reflexivity.
+Qed.
 Print Assumptions gen_C19_capSet.
 Print Assumptions gen_C19_getRequestCapabilities.
 Print Assumptions gen_C19_negotiateCapabilities.
@@ -409,3 +422,4 @@ Print Assumptions gen_C19_handleCapNak.
 Print Assumptions gen_C19_h_CAP.
 Print Assumptions gen_C19_h_AUTHENTICATE.
 Print Assumptions gen_C19_numerics.
+Print Assumptions gen_C19_queries.
